@@ -88,6 +88,27 @@ def cases(rng, tier):
             half = len(ks) // 2 or 1
             merged = bi('ㄷ', VL.vdict(list(zip(ks, vals))[half:]).expr, VL.vdict(list(zip(ks, vals))[:half]).expr)
             yield Case(program=render(bi('ㄴ', merged, fwd.expr)), tag='dict-collide-merge', monitor='c06_expect', data='True')
+    # (1e) a dictionary written with a *repeated key* (the later entry wins) is the dictionary of its surviving entries — when
+    # compared, nested, used as a key, looked up and merged (seeded change S06k kept the survivors of a repeated key in two
+    # different orders and zipped the two when a dictionary was used as a key)
+    for k0, k1 in [(I(0), I(1)), (I(1), I(0)), (VL.vstr("a"), I(3)), (VL.vlist([I(1)]), VL.vlist([I(2)]))]:
+        for pat in ([0, 1, 0], [1, 0, 0], [0, 0, 1], [0, 1, 0, 1], [0, 1, 1, 0]):
+            ks = [(k0, k1)[i] for i in pat]
+            vals = [I(8 * (i + 1)) for i in range(len(pat))]
+            last = {i: v for i, v in zip(pat, vals)}                     # index of key -> surviving value
+            dup = VL.V('dict', None, bi('ㅅㅈ', *[e for k, v in zip(ks, vals) for e in (k.expr, v.expr)]))
+            for order in ([0, 1], [1, 0]):
+                E = VL.vdict([((k0, k1)[i], last[i]) for i in order])
+                yield Case(program=render(bi('ㄴ', dup.expr, E.expr)), tag='dict-repeated-key', monitor='c06_expect', data='True')
+                yield Case(program=render(bi('ㄴ', bi('ㅁㄹ', dup.expr), bi('ㅁㄹ', E.expr))), tag='dict-repeated-key', monitor='c06_expect', data='True')
+                yield Case(program=render(call(bi('ㅅㅈ', dup.expr, lit(7)), E.expr)), tag='dict-repeated-key-as-key', monitor='c06_expect', data='7')
+                yield Case(program=render(call(bi('ㅅㅈ', dup.expr, lit(7)), dup.expr)), tag='dict-repeated-key-as-key', monitor='c06_expect', data='7')
+                yield Case(program=render(call(bi('ㅅㅈ', E.expr, lit(7)), dup.expr)), tag='dict-repeated-key-as-key', monitor='c06_expect', data='7')
+                yield Case(program=render(call(bi('ㅅㅈ', bi('ㅁㄹ', dup.expr), lit(7)), bi('ㅁㄹ', E.expr))), tag='dict-repeated-key-as-key', monitor='c06_expect', data='7')
+                yield Case(program=render(bi('ㄴ', bi('ㅅㅈ', dup.expr, lit(7)), bi('ㅅㅈ', E.expr, lit(7)))), tag='dict-repeated-key-as-key', monitor='c06_expect', data='True')
+                yield Case(program=render(call(bi('ㄷ', bi('ㅅㅈ', E.expr, lit(1)), bi('ㅅㅈ', dup.expr, lit(7))), E.expr)), tag='dict-repeated-key-merge', monitor='c06_expect', data='7')
+            for i in (0, 1):
+                yield Case(program=render(call(dup.expr, (k0, k1)[i].expr)), tag='dict-repeated-key-lookup', monitor='c06_expect', data=VL.spec_format(last[i]))
     # (1a) strings: equal iff the same code points — no normalisation, no case / width folding
     strs = [VL.vstr(x) for x in ["가", "\u1100\u1161", "\u00e9", "e\u0301", "\u212b", "\u00c5", "A\u030a", "\uf900", "\u8c48", "a", "A", "ａ", "", " "]]
     for x in strs:
